@@ -120,7 +120,7 @@ func init() {
 		Technique: "deterministic simulation: complete choice-tree sweeps of seeded small wordlist recipes on the scripted tape; exact rational law of typed token sequences vs the product-form reference law",
 		Rule:      "case = one leaf (complete choice path of one WLRecipe.Generate call); evaluations = leaves executed; distinct_nontrivial = distinct configurations swept completely with at least 2 possible passwords",
 		Assumptions: []string{"leaves are weighted by prod 1/n_i (C01)", "title-casing is strings.Title; separator recipes are uniform over their strings (C02)", "word lists respect the statement's premise by construction"},
-		Episodes:    map[string]int{"quick": 400, "thorough": 14000},
+		Episodes:    map[string]int{"quick": 2400, "thorough": 24000},
 		TwiceEvery:  8,
 		Real:        []string{"WLRecipe.Generate/Entropy", "NewWordList", "separator presets / NewSFFunction / CharRecipe.Generate", "randomUint32n"},
 		Simulated:   []string{"crypto/rand.Reader (choice tape, swept)", "word/alphabet index order (H2/H3)", "NewWordList visit order (H4)"},
@@ -150,7 +150,7 @@ func init() {
 		Technique: "deterministic simulation: exact output law from complete choice-tree sweeps (wordlist recipes: whole tree; character recipes: first candidate level renormalised by the rejected mass) compared with 2^-Entropy()",
 		Rule:      "case = one leaf of a swept configuration; evaluations = leaves executed; distinct_nontrivial = distinct configurations whose exact maximal output probability was compared with the reported entropy",
 		Assumptions: []string{"leaves are weighted by prod 1/n_i (C01)", "character recipes: retries are memoryless, so the final law is the first-level law divided by (1 - rejected mass) (supported by C02's level sweeps)", "tolerance: max(1e-4, 4 ulp of the float32 value) bits"},
-		Episodes:    map[string]int{"quick": 480, "thorough": 16000},
+		Episodes:    map[string]int{"quick": 3000, "thorough": 30000},
 		TwiceEvery:  8,
 		Real:        []string{"WLRecipe.Generate/Entropy", "CharRecipe.Generate/Entropy", "NewWordList", "separator functions"},
 		Simulated:   []string{"crypto/rand.Reader (choice tape, swept)", "word/alphabet index order (H2/H3)", "NewWordList visit order (H4)"},
@@ -353,6 +353,9 @@ func runC06(c *Ctx, si interface{}) {
 	}
 	// character recipe
 	rec := s.Char.Recipe()
+	if s.Seed%2 == 0 {
+		warmSiblings(c, s.Seed, *s.Char)
+	}
 	p := prepareChar(c, *s.Char, rec, s.Seed)
 	if p.refuse != "" || p.good == nil || len(p.S) == 0 {
 		c.Count("recipe_refused_or_unusable", 1)
